@@ -307,11 +307,12 @@ prop('C14',
      'fuzz: random strings of 0..128 bytes (half with RIFF/WAVE magic and adversarial fmt sizes), valid headers of six '
      'kinds unmodified, with one or two size fields replaced by adversarial values (0,1,15..19,39..41,2^31+-1,2^32-k..) '
      'and the supplied length padded or truncated, or with one bit flipped; every truncation point of accepted '
-     'headers; validate/get_format/tostring on every resulting structure (failed, incomplete, accepted, truncated, '
+     'headers; 102400 PCM-shaped headers whose data size, rate, block align, channels, format and bits take all combinations of boundary values (0, 1, 2^31-1, 2^31, 2^32-1, 10000, 65535 ...); validate/get_format/tostring on every resulting structure (failed, incomplete, accepted, truncated, '
      'all-zero). Non-trivial = string that passes the magic checks; distinct by content hash.',
      [Stage('fuzz', ['harness/wav.c'], WAV, preset='asan', nproc=16,
             args={'quick': ['--extra', 'fuzz'], 'thorough': ['--extra', 'fuzz']},
-            needs_min={'strings_passing_magic': 100000, 'truncations_decoded': 100000, 'helper_triples_called': 100000}),
+            needs_min={'strings_passing_magic': 100000, 'truncations_decoded': 100000, 'helper_triples_called': 100000,
+                       'extreme_field_structures': 100000}),
       Stage('fuzz-clang', ['harness/wav.c'], WAV, preset='asan', cc='clang', nproc=16, tiers=('thorough',),
             args={'thorough': ['--extra', 'fuzz', '--cases', '4000000']})],
      assumptions=['the reference parser in harness/wav.c walks the chunk grammar the decoder implements with 64-bit '
